@@ -81,17 +81,31 @@ fn replay_slice(events: &[String], timeout: Duration) -> Vec<String> {
     let mut p = spawn();
     for line in events {
         let mut failed: Option<&str> = None;
-        if writeln!(p.stdin, "{line}").and_then(|_| p.stdin.flush()).is_err() {
-            failed = Some("crash");
-        }
         let mut got = Vec::new();
-        while failed.is_none() {
-            match p.rx.recv_timeout(timeout) {
-                Ok(l) if l == DONE => break,
-                Ok(l) => got.push(l),
-                Err(RecvTimeoutError::Timeout) => failed = Some("hang"),
-                Err(RecvTimeoutError::Disconnected) => failed = Some("crash"),
+        // a time-out may be the machine, not the code: the event is run once more, alone in a fresh worker, with six
+        // times the budget, before it is recorded as a hang
+        for attempt in 0..2 {
+            failed = None;
+            got.clear();
+            let budget = if attempt == 0 { timeout } else { timeout * 6 };
+            if writeln!(p.stdin, "{line}").and_then(|_| p.stdin.flush()).is_err() {
+                failed = Some("crash");
             }
+            while failed.is_none() {
+                match p.rx.recv_timeout(budget) {
+                    Ok(l) if l == DONE => break,
+                    Ok(l) => got.push(l),
+                    Err(RecvTimeoutError::Timeout) => failed = Some("hang"),
+                    Err(RecvTimeoutError::Disconnected) => failed = Some("crash"),
+                }
+            }
+            if failed == Some("hang") && attempt == 0 {
+                let _ = p.child.kill();
+                let _ = p.child.wait();
+                p = spawn();
+                continue;
+            }
+            break;
         }
         if let Some(tag) = failed {
             let _ = p.child.kill();
